@@ -67,6 +67,10 @@ func (p vecParams) header(c *Case) *Case {
 
 var coordPool = []float32{0, 1, -1, 2, 0.5, -0.5, 3, 1.5, 0.25, -2, 1e-3, 10}
 
+// fineStep: the spacing of the near-duplicates of style 3 (set per history: 2^-13, 2^-20 or 2^-23, so that
+// Euclidean, squared and cosine distances between neighbours all fall below 1e-6 in some histories)
+var fineStep float32 = 1.0 / 8192
+
 func histVec(r *rand.Rand, dim int, style int) []float32 {
 	v := make([]float32, dim)
 	for i := range v {
@@ -83,7 +87,7 @@ func histVec(r *rand.Rand, dim int, style int) []float32 {
 				v[i] = 0.1 * float32(r.NormFloat64())
 			}
 		case 3: // fine scale: near-duplicates of the pool values, a few 1e-4 apart (distances far below 1e-6 that are NOT ties)
-			v[i] = coordPool[r.Intn(len(coordPool))] + float32(r.Intn(5)-2)/8192
+			v[i] = coordPool[r.Intn(len(coordPool))] + float32(r.Intn(5)-2)*fineStep
 		default:
 			v[i] = rndF32(r)
 		}
@@ -119,6 +123,7 @@ func runVecHistory(r *rand.Rand, p vecParams, o vecHistOpts, t *Trace) *Case {
 	style := r.Intn(3)
 	if o.fine {
 		style = 3
+		fineStep = []float32{1.0 / 8192, 1.0 / (1 << 20), 1.0 / (1 << 23)}[r.Intn(3)]
 	}
 	if o.radii {
 		style = 4
@@ -129,6 +134,8 @@ func runVecHistory(r *rand.Rand, p vecParams, o vecHistOpts, t *Trace) *Case {
 	dist, _ := comet.NewDistance(metrics[p.metric])
 	var resident []liveVec // ids ever added successfully (and still resident or removed)
 	removed := map[uint32]bool{}
+	var vscript []int   // forced next operations (values of x)
+	var vremove uint32  // the id the next remove takes
 	nextID := uint32(1) // counts the adds; the id handed to the index is idOf(nextID)
 	// ids are the caller's: ascending, descending, or in no order at all (storage order is insertion order,
 	// not id order -- nothing may rely on ids growing)
@@ -251,6 +258,9 @@ func runVecHistory(r *rand.Rand, p vecParams, o vecHistOpts, t *Trace) *Case {
 			emitDump()
 		}
 		x := r.Intn(100)
+		if len(vscript) > 0 { // the follow-up of an id added while live: remove it, flush, look
+			x, vscript = vscript[0], vscript[1:]
+		}
 		switch {
 		case x < 38: // add
 			id := idOf(nextID)
@@ -274,6 +284,10 @@ func runVecHistory(r *rand.Rand, p vecParams, o vecHistOpts, t *Trace) *Case {
 					}
 					id = cand
 					t.Stat("vec.add_id_that_is_live")
+					if r.Intn(2) == 0 {
+						// both entries go with one Remove, and stay gone through a Flush (wherever they are stored)
+						vremove, vscript = id, []int{45, 55, 99}
+					}
 				}
 			}
 			dim := p.dim
@@ -319,6 +333,9 @@ func runVecHistory(r *rand.Rand, p vecParams, o vecHistOpts, t *Trace) *Case {
 				id = resident[r.Intn(len(resident))].id
 			default:
 				id = uint32(500 + r.Intn(5))
+			}
+			if vremove != 0 {
+				id, vremove = vremove, 0
 			}
 			var e error
 			rpan := catchPanic(func() { e = idx.Remove(*comet.NewVectorNodeWithID(id, nil)) })
